@@ -920,7 +920,7 @@ fn main() {
             let (sel_part, kv_part) = split_sel(rest);
             let parts: Vec<&str> = sel_part.split("::").map(|s| s.trim()).collect();
             let (_p, kv) = parse_kv(&kv_part);
-            let opts = Opts { kv, loops, loop_alts };
+            let mut opts = Opts { kv, loops, loop_alts };
             if parts.len() < 3 {
                 die(2, &format!("bad selector `{}`", rest));
             }
@@ -938,6 +938,33 @@ fn main() {
                     failures.push(e);
                 }
                 Ok((_ii, fr)) => {
+                    // `$p<k>` in contract / invariant / proof text stands for the k-th non-self parameter's current name,
+                    // so that a contract survives a parameter being renamed (e.g. to `_right` once it is unused)
+                    if !is_frag {
+                        let names: Vec<String> = fr
+                            .sig()
+                            .inputs
+                            .iter()
+                            .filter_map(|a| match a {
+                                syn::FnArg::Typed(pt) => Some(match &*pt.pat {
+                                    Pat::Ident(pi) => pi.ident.to_string(),
+                                    other => other.to_token_stream().to_string(),
+                                }),
+                                _ => None,
+                            })
+                            .collect();
+                        let sub = |t: &str| -> String {
+                            let mut o = t.to_string();
+                            for (k, n) in names.iter().enumerate().rev() {
+                                o = o.replace(&format!("$p{}", k), n);
+                            }
+                            o
+                        };
+                        contract = sub(&contract);
+                        for v in opts.kv.values_mut() { *v = sub(v); }
+                        for ls in opts.loops.values_mut() { ls.inv = sub(&ls.inv); for v in ls.opts.values_mut() { *v = sub(v); } }
+                        for alts in opts.loop_alts.values_mut() { for ls in alts.iter_mut() { ls.inv = sub(&ls.inv); for v in ls.opts.values_mut() { *v = sub(v); } } }
+                    }
                     let r = R::new(&fc.src, &opts);
                     let (txt, orig_span) = if let Some(fs) = &fragsel {
                         match frag::render_frag(&r, fr, fs, &contract) {
